@@ -92,7 +92,7 @@ def tlc_stats(out):
 def tlc_coverage(out):
     """per-action 'taken:generated' from -coverage 1 output (last report)"""
     cov = {}
-    for m in re.finditer(r'<(\w+) line \d+, col \d+ to line \d+, col \d+ of module (\w+)>: (\d+):(\d+)', out):
+    for m in re.finditer(r'<(\w+) line \d+, col \d+ to line \d+, col \d+ of module (\w+)(?: \([\d ]+\))?>: (\d+):(\d+)', out):
         cov[m.group(1)] = {'distinct': int(m.group(3)), 'generated': int(m.group(4))}
     return cov
 
